@@ -159,3 +159,65 @@ def write_order_obligations(res, tree, rule: str) -> int:
                         f"the origin {txt(outer[1], 2, 50)} is rewritten after the destination {txt(inner[1], 2, 50)}: when the move is blocked both are the same cell and the entity is erased from the grid")
                 n += 1
     return n
+
+
+# ------------------------------------------------------------------------------------------------------------------
+def _reencoded_codes(R: T, depth: int = 0):
+    """{C: K} for an array R = where(P, K, rest) whose condition P contains `V == C` with K != C constants: inside R a
+    cell whose source held C may hold K instead (Sokoban's combined grid: BOX on a target becomes TARGET_BOX)."""
+    from ..normal import conjuncts
+    out = {}
+    R = strip_cast(R)
+    if depth > 6:
+        return out
+    if R.kind == "choice" and R.args[0] in ("where", "select") and len(R.args[2]) == 2:
+        P, (a, b) = R.args[1], R.args[2]
+        K = strip_cast(a)
+        if K.kind == "const" and isinstance(K.args[0], int) and not isinstance(K.args[0], bool):
+            for c in conjuncts(P):
+                c0 = strip_cast(c)
+                if c0.kind == "cmp" and c0.args[0] == "==":
+                    for x, y in ((c0.args[1], c0.args[2]), (c0.args[2], c0.args[1])):
+                        y0 = strip_cast(y)
+                        if y0.kind == "const" and isinstance(y0.args[0], int) and not isinstance(y0.args[0], bool) and y0.args[0] != K.args[0] \
+                                and strip_cast(x).kind != "const":
+                            out.setdefault(y0.args[0], K.args[0])
+        out.update({k: v for k, v in _reencoded_codes(b, depth + 1).items() if k not in out})
+        return out
+    if R.kind == "call" and R.args[0].kind == "attr" and R.args[0].args[1] == "astype":
+        return _reencoded_codes(R.args[0].args[0], depth + 1)
+    return out
+
+
+def reencoding_obligations(res, tree, rule: str) -> int:
+    """A test `R[...] == C` on an array R that re-encodes the code C under some condition (R = where(.. & V == C, K, ..))
+    misses the cells that hold K: in Sokoban's combined grid a box on a target is TARGET_BOX, not BOX, so looking for
+    BOX there lets a second box be pushed into it.  Zero instances on the pinned tree (the combined grid is only
+    rendered / observed); every comparison of an indexed array with an integer constant is inspected."""
+    n = bad = 0
+    seen = set()
+    for ea in analyses(tree):
+        for root in (ea.reset_result, ea.step_result):
+            for t in deps(root):
+                if t.kind != "cmp" or t.args[0] not in ("==", "!="):
+                    continue
+                for a, c in ((t.args[1], t.args[2]), (t.args[2], t.args[1])):
+                    c0 = strip_cast(c)
+                    if c0.kind != "const" or not isinstance(c0.args[0], int) or isinstance(c0.args[0], bool):
+                        continue
+                    base = strip_cast(a)
+                    while base.kind in ("index", "elem", "copy"):
+                        base = strip_cast(base.args[0])
+                    codes = _reencoded_codes(base)
+                    n += 1
+                    if c0.args[0] in codes:
+                        loc, fn, src = site_of(t)
+                        if (fn, src) in seen:
+                            continue
+                        seen.add((fn, src))
+                        bad += 1
+                        res.add(rule, loc, fn, f"test against a re-encoded code: {src}", False,
+                                f"the array {txt(base, 2, 60)} stores {codes[c0.args[0]]} instead of {c0.args[0]} under a condition of its own construction: "
+                                f"comparing it with {c0.args[0]} misses those cells")
+    res.add(rule, "jumanji/environments", "reset/step closures", "no test compares a re-encoding array with a code it re-encodes", bad == 0, f"{n} comparisons of an array with an integer code inspected")
+    return n
